@@ -276,6 +276,8 @@ def obligations(tier, seed):
         if tier == "quick" and ncmd >= 5:
             continue  # all-commands elements: thorough tier only (thousands of paths)
         K = 7 if (tier == "thorough" or ncmd <= 2) else 2
+        if tier == "quick" and nm.startswith("one3"):
+            K = 3  # three chained define statements: value kinds nothing/default/string/number
         uses_repeat = "tal:repeat" in src
         obs.append(Ob(id="C17.1-template[%s]" % nm, body="harness.C17:body_template",
                       sig="name: str, cvk: int, tvk: int, avk: int, ovk: int, dvk: int, s1: str, s2: str, n: int, i1k: int, i2k: int, nitems: int",
@@ -284,7 +286,7 @@ def obligations(tier, seed):
                           + ([] if "tal:condition" in src else ["cvk == 0"]) + ([] if uses_repeat else ["nitems == 0", "i1k == 0", "i2k == 0"])
                           + ([] if ("tal:attributes" in src) else ["avk == 0"]) + ([] if 'tal:omit-tag="ov"' in src else ["ovk == 0"])
                           + ([] if ("tal:define" in src) else ["dvk == 0"]) + ([] if ("tv" in src) else ["tvk == 0"])
-                          + (["len(s2) == 0", "i1k <= 1", "nitems <= 1", "all(c in '<a' for c in s1)"] if (tier == "quick" and ncmd >= 3) else []),
+                          + (["len(s2) == 0", "i1k <= 1", "nitems <= 1", "all(c in '<a' for c in s1)"] if (tier == "quick" and (ncmd >= 3 or nm.startswith("one3"))) else []),
                       timeout=400 if tier == "quick" else 2400,
                       desc="template %s: real compile + expand under a symbolic context == reference TAL evaluator; interpreter state balanced; caller context restored" % src,
                       bounds="each used context value over kinds 0..%d of (nothing, default, string, number, '', [], [s], 0);" % K + " strings |s| <= %d over {< & \" a}; repeat of 0..2 items (missing key / string)" % n,
